@@ -385,6 +385,8 @@ def pool_for(cname, mname, pname, param, recv):
         return omit + [['lit', [2]], ['lit', []], ['lit', [3]], ['lit', [2, 2]], ['lit', [3, 3]], ['lit', [4]]]
     if pname == 'derivs':
         return omit + [['derivdict', 1], ['derivdict', 2], ['lit', None], ['derivdict', 3]]
+    if pname == 'digits' and mname == '__round__':
+        return [['lit', 1], ['lit', 0], ['lit', -1]]
     if pname == 'digits':
         return omit + [['lit', 'single'], ['lit', 8], ['lit', ['double', 'single']], ['lit', 'bogus']]
     if pname == 'reference':
@@ -539,6 +541,20 @@ def build_arg(spec, recv, rdesc, Pm, salt=1):
 # =====================================================================================
 # discovery and the call list
 # =====================================================================================
+_NOT_CALLS = ('__init__', '__new__', '__getstate__', '__setstate__', '__init_subclass__', '__class_getitem__')
+
+
+def _polymath_dunder(c, n):
+    """a special method (``__round__`` ...) that a polymath class defines itself and that is not in the fixed
+    list: found by introspection so that a newly added one is swept too"""
+    if not (n.startswith('__') and n.endswith('__')) or n in _NOT_CALLS:
+        return False
+    for k in c.__mro__:
+        if k.__module__.startswith('polymath') and isinstance(k.__dict__.get(n), types.FunctionType):
+            return True
+    return False
+
+
 def discover(Pm):
     """[(class name, attribute name, kind, signature or None)] sorted; kind in
     method/static/class/prop.  Non-callable class attributes are not calls (polymath/Units valued
@@ -547,7 +563,7 @@ def discover(Pm):
     for cname in CLASS_NAMES:
         c = getattr(Pm, cname)
         for n in sorted(dir(c)):
-            if n.startswith('_') and n not in DUNDERS:
+            if n.startswith('_') and n not in DUNDERS and not _polymath_dunder(c, n):
                 continue
             a = inspect.getattr_static(c, n)
             if isinstance(a, property):
